@@ -6,7 +6,8 @@
       `recurse` flag), `insert_declaration`, `insert_import`, `parent_module`,
       `module_name`, `print_scope`;
     * `resolve_module_part_of_path` (`src/typechecker/expr.rs`): leading
-      `super`s, first segment with recursion, later segments without;
+      `super`s, first segment with recursion unless it follows a `super`, later
+      segments without;
     * `TypeChecker::import` / `imports` (`src/typechecker/mod.rs`): the
       retain-until-no-progress loop;
     * the passes of `check_module_tree` as far as names are concerned:
@@ -245,9 +246,11 @@ def segments (g : Graph) : Nat → Name → List Name → Bool → Res PathRes
         | [] => .ok ⟨id, stub, []⟩
         | i :: rest' => segments g s' i rest' false
 
-/-- the first loop (`while ident == "super"`), then the second -/
-def supers (g : Graph) : Nat → Name → List Name → Res PathRes
-  | s, id, rest =>
+/-- the first loop (`while ident == "super"`), then the second; `after` = at
+    least one `super` has been consumed, so the next identifier names a member
+    of that module (`recurse = false`) -/
+def supers (g : Graph) : Nat → Name → List Name → Bool → Res PathRes
+  | s, id, rest, after =>
     if id = SUPER then
       match g.parentModule s with
       | .panic p => .panic p
@@ -259,13 +262,13 @@ def supers (g : Graph) : Nat → Name → List Name → Res PathRes
         | some s' =>
           match rest with
           | [] => .ok ⟨id, dec, []⟩
-          | id' :: rest' => supers g s' id' rest'
-    else segments g s id rest true
+          | id' :: rest' => supers g s' id' rest' true
+    else segments g s id rest (!after)
 
 /-- `TypeChecker::resolve_module_part_of_path` -/
 def resolveModulePart (g : Graph) (s : Nat) : Path → Res PathRes
   | [] => .panic .emptyPath
-  | id :: rest => supers g s id rest
+  | id :: rest => supers g s id rest false
 
 /-- `TypeChecker::import` -/
 def importOne (g : Graph) (s : Nat) (p : Path) : Res Graph :=
